@@ -52,13 +52,16 @@ META = {
 THEOREMS = [
     "unit_reciprocal", "unit_transitive", "unit_factor_symbolic", "unit_check_sound", "unit_txt_consistent",
     "dms_roundtrip", "dms_components_in_range", "dms_small_negative", "dms_unique", "dms_sign_of_value_refuted",
+    "dms_roundtrip_rad", "dms_rad_components_in_range", "dms_rad_small_negative",
     "lagrange_nodes", "lagrange_linear_in_y", "lagrange_perm_invariant", "lagrange_reproduces_poly", "lagrange_ndim",
     "scaling_irrelevant",
+    "linear_nodes", "linear_linear_in_y", "linear_perm_invariant", "linear_ndim", "linear_reproduces_affine",
     "dop_pythagoras", "dop_pythagoras_geometry", "dop_perm_invariant", "dop_azimuth_invariant",
-    "velocity_perp_position", "velocity_perp_pole", "velocity_perp_real",
+    "dop_square_case", "dop_square_wrong_product_refuted",
+    "velocity_perp_position", "velocity_perp_pole", "velocity_perp_real", "spherical_cartesian_roundtrip",
 ]
 
-REQ = ("From Verif Require Import Lib.Dyadic Model.C20_Units Model.C20_Dms Model.C20_Lagrange Model.C20_Dop Model.C20_Plate.\n"
+REQ = ("From Verif Require Import Lib.Dyadic Model.C20_Units Model.C20_Dms Model.C20_Lagrange Model.C20_Linear Model.C20_Dop Model.C20_Plate.\n"
        "Open Scope string_scope.")
 
 # names must equal the table of Model/C20_Units.v (a name unknown there gives verdict 3 = violation)
@@ -66,7 +69,7 @@ UNITS = {
     "length": ["meter", "kilometer", "decimeter", "centimeter", "millimeter", "micrometer", "nanometer", "angstrom", "inch",
                "foot", "yard", "mile", "nautical_mile", "Megameter", "astronomical_unit", "light_year"],
     "time": ["second", "millisecond", "microsecond", "nanosecond", "picosecond", "minute", "hour", "day", "week",
-             "fortnight", "year", "julian_year", "century"],
+             "fortnight", "year", "julian_year", "century", "megasecond"],
     "angle": ["radian", "degree", "arcminute", "arcsecond", "milliarcsecond", "mas", "microarcsecond", "turn",
               "revolution", "grade"],
     "angrate": ["radian / second", "radian per year", "degree per year", "milliarcsecond per year", "masD", "degree per day"],
@@ -76,7 +79,9 @@ UNITS = {
 ALIASES = [("m", "meter"), ("km", "kilometer"), ("meters", "meter"), ("inches", "inch"), ("deg", "degree"), ("degrees", "degree"),
            ("rad", "radian"), ("radians", "radian"), ("sec", "second"), ("secs", "second"), ("seconds", "second"), ("s", "second"),
            ("days", "day"), ("nanosecs", "nanosecond"), ("minutes", "minute"), ("hours", "hour"), ("weeks", "week"),
-           ("milliarcsec", "milliarcsecond"), ("mm", "millimeter"), ("Mm", "Megameter")]
+           ("milliarcsec", "milliarcsecond"), ("mm", "millimeter"), ("Mm", "Megameter"), ("ms", "millisecond"), ("Ms", "megasecond")]
+# names that differ in letter case only, requested right after each other (a case-folding memo would confuse them)
+CASE_PAIRS = [("Mm", "Megameter", "mm", "millimeter", "m", "meter"), ("Ms", "megasecond", "ms", "millisecond", "s", "second")]
 
 
 # ============================================================================= regeneration
@@ -193,7 +198,7 @@ def unit_call(a, b):
     return float(Unit(a, b))
 
 
-def units_cases(ctx, fact, mism):
+def units_cases(ctx, fact, same, mism):
     from midgard.math.unit import Unit
     shards = []
     meta = []
@@ -237,6 +242,43 @@ def units_cases(ctx, fact, mism):
                          dict(kind="unit_factor", a=a, b=b, observed=repr(v), how=f"Unit({a!r}, {b!r})  [alias of {ca}/{cb}]"))
                 ctx.case(("unit-alias", a, b), nontrivial=False)
         ctx.count("units:alias")
+    # ---- history independence: every request of this process is repeated in another order (first the case-only
+    # different names right after each other, then everything backwards); the factor must not depend on what was
+    # requested before: compared with the model again and bit-for-bit with the first answer.
+    first = []                                         # (a, b, canonical a, canonical b, value)
+    for big, cbig, small, csmall, base, cbase in CASE_PAIRS:
+        for a, ca in ((big, cbig), (small, csmall), (small, csmall), (big, cbig)):
+            for x, y, cx, cy in ((a, base, ca, cbase), (base, a, cbase, ca)):
+                try:
+                    v = unit_call(x, y)
+                except Exception as e:
+                    mism.append(dict(kind="unit", a=x, b=y, observed=f"{type(e).__name__}: {e}", how=f"Unit({x!r}, {y!r})"))
+                    continue
+                first.append((x, y, cx, cy, v))
+                fact.add(emit.pair(emit.s(cx), emit.s(cy), emit.dy(v)),
+                         dict(kind="unit_factor", a=x, b=y, observed=repr(v), how=f"Unit({x!r}, {y!r}) requested right after its case-twin [= {cx}/{cy}]"))
+                ctx.case(("unit-case", x, y, len(first)), nontrivial=True)
+    for dim, names, mat in meta:
+        for i, a in enumerate(names):
+            for j, b in enumerate(names):
+                first.append((a, b, a, b, mat[i][j]))
+    order = list(range(len(first)))
+    order.reverse()
+    k = ctx.rng.randrange(1, len(order))
+    order = order[k:] + order[:k]                      # backwards, rotated
+    for idx in order:
+        x, y, cx, cy, v1 = first[idx]
+        try:
+            v2 = unit_call(x, y)
+        except Exception as e:
+            mism.append(dict(kind="unit", a=x, b=y, observed=f"{type(e).__name__}: {e}", how=f"Unit({x!r}, {y!r}) (second request)"))
+            continue
+        rep = dict(kind="unit_repeat", a=x, b=y, first=repr(v1), second=repr(v2),
+                   how=f"Unit({x!r}, {y!r}) requested a second time in the same process, after the other units in reverse order")
+        same.add(emit.pair(emit.dy(v1), emit.dy(v2)), rep)
+        fact.add(emit.pair(emit.s(cx), emit.s(cy), emit.dy(v2)), dict(rep, kind="unit_factor", observed=repr(v2)))
+        ctx.case(("unit-repeat", x, y, idx), nontrivial=False)
+    ctx.count("units:repeated-requests", len(order))
     vs = coq_cases_retry(ctx, shards)
     return vs, meta
 
@@ -456,6 +498,63 @@ def lagrange_cases(ctx, cs, mism, nsets):
                 break       # the call raised as a whole: one case is enough
 
 
+# ----------------------------------------------------------------------------- linear (exact model)
+def linear_cases(ctx, cs, mism, nsets):
+    """interpolate(kind='linear') against the exact piecewise-linear model: arbitrary doubles (segment selection uses
+    comparisons only), 1-/2-/3-d y, shuffled samples, default / bounds_error=False / fill_value='extrapolate'."""
+    from midgard.math import interpolation
+    rng = ctx.rng
+    for it in range(nsets):
+        style = rng.choice(["int", "float", "float"])
+        if style == "int":
+            _, xs, _ = gen_samples(rng, "int")
+        else:
+            n = rng.choice([2, 3, 5, 9, 17, rng.randrange(2, 61)])
+            xs = sorted({rng.uniform(-1e3, 1e3) * rng.choice([1, 1e-3, 1e3]) for _ in range(n)})
+            if len(xs) < 2:
+                xs = [0.0, 1.0]
+        n = len(xs)
+        shape_tail = rng.choice([(), (), (2,), (3,), (2, 2)])
+        _, y = gen_y(rng, xs, shape_tail)
+        ncols = int(np.prod(shape_tail)) if shape_tail else 1
+        order = list(range(n))
+        if rng.random() < 0.6:
+            rng.shuffle(order)
+        xi = [xs[k] for k in order]
+        yi = np.asarray(y)[order]
+        fc = rng.choice([0, 0, 1, 2])
+        kw = {0: {}, 1: dict(bounds_error=False), 2: dict(fill_value="extrapolate")}[fc]
+        span = xs[-1] - xs[0]
+        inside = [xs[0], xs[-1], rng.choice(xs), (xs[0] + xs[1]) / 2] + [rng.uniform(xs[0], xs[-1]) for _ in range(3)]
+        inside = [min(max(t, xs[0]), xs[-1]) for t in inside]
+        outside = [xs[0] - span * rng.choice([1e-9, 0.3, 2.0]), xs[-1] + span * rng.choice([1e-9, 0.3, 2.0])]
+        outside = [t for t in outside if t < xs[0] or t > xs[-1]]
+        calls = [inside] + ([[t] for t in outside] if fc == 0 else [outside + inside[:2]] if outside else [])
+        yrows = np.asarray(yi, dtype=float).reshape(n, ncols)
+        for xnew in calls:
+            try:
+                res = np.asarray(interpolation.interpolate(np.array(xi), np.array(yi, dtype=float), np.array(xnew), kind="linear", **kw), dtype=float)
+                err = None
+            except ValueError as e:
+                res, err = None, f"ValueError: {e}"
+            except Exception as e:
+                mism.append(dict(kind="linear", x=[repr(v) for v in xi], x_new=[repr(v) for v in xnew], options=repr(kw), observed=f"{type(e).__name__}: {e}",
+                                 how="interpolate(x, y, x_new, kind='linear', **options)"))
+                continue
+            for k, t in enumerate(xnew):
+                row = None if res is None else np.asarray(res[k], dtype=float).reshape(ncols)
+                rep = dict(kind="linear", x=[repr(v) for v in xi], y=np.asarray(yi).tolist(), x_new=repr(t), all_x_new=[repr(v) for v in xnew], options=repr(kw),
+                           observed=(err if res is None else row.tolist()),
+                           how="interpolation.interpolate(np.array(x), np.array(y), np.array(all_x_new), kind='linear', **options)[k]")
+                pts = emit.lst(emit.pair(emit.dy(a), dys(r)) for a, r in zip(xi, yrows))
+                cs.add(emit.pair(emit.z(fc), pts, emit.dy(t), "None" if row is None else "(Some " + dys(row) + ")"), rep)
+                ctx.case(("linear", tuple(xi), fc, float(t).hex(), yrows.tobytes()), nontrivial=True,
+                         sample=dict(n=n, fill=fc, x_new=repr(t), ncols=ncols) if it < 1 and k == 0 else None)
+                if res is None:
+                    break
+        ctx.count(f"linear:{style}:fill{fc}:ncols{ncols}:n{'<=5' if n <= 5 else '>5'}")
+
+
 SCIPY_KINDS = ["linear", "cubic", "interpolated_univariate_spline", "barycentric_interpolator"]
 ACCEPTS_UNSORTED = {"lagrange": True, "linear": True, "cubic": True, "interpolated_univariate_spline": False,
                     "barycentric_interpolator": True}
@@ -635,8 +734,46 @@ def dop_observe(az, el):
     return [float(v) for v in r]
 
 
+DOP_CORPUS = [   # four satellites: H is square, (H^T H)^-1 must not be confused with (H H^T)^-1 (theorem dop_square_case)
+    ([0.0, math.pi / 2, math.pi, 0.0], [0.0, 0.0, 0.0, math.pi / 2]),             # the witness of dop_square_wrong_product
+    ([0.3, 1.9, 3.7, 5.2], [0.2, 0.9, 0.4, 1.3]),
+    ([0.0, 2.0943951023931953, 4.1887902047863905, 1.0], [0.5, 0.5, 0.5, 1.4]),
+    ([5.9, 0.1, 3.0, 3.3], [0.15, 1.2, 0.6, 0.35]),
+]
+
+
 def dop_cases(ctx, cs, mism, n):
     rng = ctx.rng
+
+    def one(az, el, style, it):
+        k = len(az)
+        theta = rng.uniform(-math.pi, math.pi)
+        perm = list(range(k))
+        rng.shuffle(perm)
+        if perm == sorted(perm):
+            perm.reverse()
+        try:
+            d0 = dop_observe(az, el)
+            d1 = dop_observe([a + theta for a in az], el)
+            d2 = dop_observe([az[i] for i in perm], [el[i] for i in perm])
+        except Exception as e:
+            mism.append(dict(kind="dop", az=az, el=el, observed=f"{type(e).__name__}: {e}", how="compute_dops(np.array(az), np.array(el))"))
+            return
+        if d0 is None or d1 is None or d2 is None or any(math.isnan(v) for v in d0 + d1 + d2):
+            if style == "corpus":
+                mism.append(dict(kind="dop", az=az, el=el, observed=repr((d0, d1, d2)), how="compute_dops on a regular four-satellite geometry returned None/NaN"))
+            ctx.count("dop:singular-skipped")
+            return
+        rep = dict(kind="dop", az=[repr(a) for a in az], el=[repr(e) for e in el], theta=repr(theta), perm=perm,
+                   observed=dict(gdop_pdop_tdop_hdop_vdop=d0, rotated=d1, permuted=d2),
+                   how="compute_dops(np.array(az), np.array(el)); (az + theta, el); (az[perm], el[perm])")
+        five = lambda d: emit.pair(*(emit.dy(v) for v in d))
+        cs.add(emit.pair(emit.lst(emit.pair(emit.dy(a), emit.dy(e)) for a, e in zip(az, el)), five(d0), five(d1), five(d2)), rep)
+        ctx.count(f"dop:{style}:n{'4' if k == 4 else '5-12' if k <= 12 else '13-40'}")
+        ctx.case(("dop", tuple(az), tuple(el)), nontrivial=True, sample=dict(n=k, dops=d0) if it < 1 else None)
+
+    for az, el in DOP_CORPUS:
+        one(list(az), list(el), "corpus", 1)
     for it in range(n):
         k = rng.choice([4, 4, 5, 6, 8, 10, 12, 20, 40, rng.randrange(4, 41)])
         style = rng.choice(["sky", "sky", "high", "ring"])
@@ -647,26 +784,7 @@ def dop_cases(ctx, cs, mism, n):
             el = [rng.uniform(math.radians(40), math.radians(90)) for _ in range(k)]
         else:
             el = [rng.uniform(math.radians(5), math.radians(25)) for _ in range(k - 1)] + [rng.uniform(math.radians(60), math.radians(90))]
-        theta = rng.uniform(-math.pi, math.pi)
-        perm = list(range(k))
-        rng.shuffle(perm)
-        try:
-            d0 = dop_observe(az, el)
-            d1 = dop_observe([a + theta for a in az], el)
-            d2 = dop_observe([az[i] for i in perm], [el[i] for i in perm])
-        except Exception as e:
-            mism.append(dict(kind="dop", az=az, el=el, observed=f"{type(e).__name__}: {e}", how="compute_dops(np.array(az), np.array(el))"))
-            continue
-        if d0 is None or d1 is None or d2 is None or any(math.isnan(v) for v in d0 + d1 + d2):
-            ctx.count("dop:singular-skipped")
-            continue
-        rep = dict(kind="dop", az=[repr(a) for a in az], el=[repr(e) for e in el], theta=repr(theta), perm=perm,
-                   observed=dict(gdop_pdop_tdop_hdop_vdop=d0, rotated=d1, permuted=d2),
-                   how="compute_dops(np.array(az), np.array(el)); (az + theta, el); (az[perm], el[perm])")
-        five = lambda d: emit.pair(*(emit.dy(v) for v in d))
-        cs.add(emit.pair(emit.lst(emit.pair(emit.dy(a), emit.dy(e)) for a, e in zip(az, el)), five(d0), five(d1), five(d2)), rep)
-        ctx.count(f"dop:{style}:n{'4' if k == 4 else '5-12' if k <= 12 else '13-40'}")
-        ctx.case(("dop", tuple(az), tuple(el)), nontrivial=True, sample=dict(n=k, dops=d0) if it < 1 else None)
+        one(az, el, style, it)
 
 
 # ============================================================================= plate motion
@@ -708,12 +826,61 @@ def plate_cases(ctx, cs, mism, npos):
             ctx.count(f"plate:{mname}")
 
 
+def pole_cases(ctx, rows_cs, mism, n):
+    """Euler pole spherical <-> cartesian (PlateMotion.to_cartesian / to_spherical / as_*): round trips in both directions
+    and |w| = 3.6 * omega (deg/Myr -> mas/yr), decided inside Coq on the doubles (relative 1e-12)."""
+    from midgard.collections import plate_motion_models as pmm
+    from midgard.math.plate_motion import PlateMotion
+    rng = ctx.rng
+    rel = Fraction(1, 10 ** 12)
+    pm0 = PlateMotion(plate="eura", model="itrf2014")
+    sph = [(0.0, 0.0, 1.0), (45.0, 180.0, 0.25), (-89.9, -179.5, 2.0), (89.9, 90.0, 0.1), (10.0, -90.0, 4.5), (-30.0, 179.99999, 0.651)]
+    for _ in range(n):
+        sph.append((rng.uniform(-89.99, 89.99), rng.uniform(-179.99, 180.0), rng.uniform(0.05, 5.0)))
+    for lat, lon, om in sph:
+        try:
+            cart = [float(c) for c in pm0.to_cartesian(np.array([lat, lon, om]))]
+            back = [float(c) for c in pm0.to_spherical(np.array(cart))]
+        except Exception as e:
+            mism.append(dict(kind="pole", pole=[lat, lon, om], observed=f"{type(e).__name__}: {e}", how="to_spherical(to_cartesian(pole))"))
+            continue
+        base = dict(pole_lat_lon_omega=[repr(lat), repr(lon), repr(om)], cartesian=[repr(c) for c in cart])
+        rows_cs.add(emit.pair(emit.q(rel), emit.dy(180.0), dys([lat, lon]), dys(back[:2])),
+                    dict(base, kind="pole_roundtrip", observed=[repr(c) for c in back], how="PlateMotion.to_spherical(to_cartesian([lat, lon, omega])) must return lat, lon"))
+        rows_cs.add(emit.pair(emit.q(rel), emit.dy(om), dys([om, 3.6 * om]), dys([back[2], math.sqrt(sum(c * c for c in cart))])),
+                    dict(base, kind="pole_roundtrip", observed=[repr(c) for c in back], how="omega is returned and |to_cartesian(pole)| = 3.6 * omega [mas/yr]"))
+        ctx.case(("pole", lat, lon, om), nontrivial=True)
+    ctx.count("pole:spherical->cartesian->spherical", len(sph))
+    k = 0
+    for mname in sorted(pmm.models()):
+        for plate in pmm.get(mname).plates:
+            try:
+                pm = PlateMotion(plate=plate, model=mname)
+                cart = [float(c) for c in pm.as_cartesian()]
+                s3 = pm.as_spherical()
+                back = [float(c) for c in pm.to_cartesian(np.array(s3))]
+            except Exception as e:
+                mism.append(dict(kind="pole", model=mname, plate=plate, observed=f"{type(e).__name__}: {e}", how="to_cartesian(as_spherical())"))
+                continue
+            scale = math.sqrt(sum(c * c for c in cart))
+            rows_cs.add(emit.pair(emit.q(rel), emit.dy(scale), dys(cart), dys(back)),
+                        dict(kind="pole_roundtrip", model=mname, plate=plate, as_cartesian=[repr(c) for c in cart], as_spherical=[repr(float(c)) for c in s3],
+                             observed=[repr(c) for c in back], how="PlateMotion(plate, model): to_cartesian(as_spherical()) must return as_cartesian()"))
+            ctx.case(("pole-plate", mname, plate), nontrivial=True)
+            k += 1
+    ctx.count("pole:cartesian->spherical->cartesian(all plates)", k)
+
+
 # ============================================================================= run
 EXPLAIN = {
+    "unit_repeat": {1: "the same conversion factor requested twice in one process gives two different doubles (result depends on the request history)"},
     "unit_factor": {1: "Unit factor differs from the exact factor val(a)/val(b) by more than 4 ulp", 3: "unit unknown in the model table / dimension mismatch"},
     "dms": {1: "deg/min/sec components malformed or their value differs from the angle", 2: "round trip loses the sign of the angle (sign taken from the numeric value of the degree component)"},
     "hms": {1: "hms_to_rad differs from 15 * (h + m/60 + s/3600) degrees"},
     "lagrange": {1: "lagrange result differs from the exact model by more than 1e-9 * sum|y_i L_i(t)|", 5: "ValueError raised by exactly one of implementation and model"},
+    "linear": {1: "linear interpolation differs from the exact piecewise-linear model", 3: "samples outside the domain of the model",
+               5: "outcome (ValueError / NaN / value) differs from the model"},
+    "pole_roundtrip": {1: "Euler pole spherical <-> cartesian conversion does not round-trip / wrong magnitude"},
     "law_nodes": {1: "interpolator does not reproduce the data at the nodes"},
     "law_ndim": {1: "n-d data is not interpolated column-wise"},
     "law_perm": {1: "result depends on the order of the samples"},
@@ -769,25 +936,29 @@ def run(ctx):
         return not only or name in only
 
     fact = Cases("check_factor", 400)
-    ident_vs, ident_meta = units_cases(ctx, fact, mism) if on("units") else ([], [])
+    same = Cases("check_same_dy", 1000)
+    ident_vs, ident_meta = units_cases(ctx, fact, same, mism) if on("units") else ([], [])
     dms = Cases("check_dms", 400)
     hms = Cases("check_hms", 400)
     if on("dms"):
         dms_cases(ctx, dms, mism, 300 if q else 6000)
         hms_cases(ctx, hms, mism, 40 if q else 400)
     lag = Cases("check_lagrange", 12 if q else 24)
+    linm = Cases("check_linear", 60)
     rows = Cases("check_rows", 300)
     lin = Cases("check_lin", 300)
     if on("lag"):
         lagrange_cases(ctx, lag, mism, 110 if q else 1400)
         law_cases(ctx, rows, lin, mism, 100 if q else 1500)
         dtype_cases(ctx, lag, rows, lin, mism, 18 if q else 240)
+        linear_cases(ctx, linm, mism, 60 if q else 800)
     dop = Cases("check_dop3", 4 if q else 10)
     if on("dop"):
         dop_cases(ctx, dop, mism, 60 if q else 700)
     plate = Cases("check_plate", 200)
     if on("plate"):
         plate_cases(ctx, plate, mism, 3 if q else 30)
+        pole_cases(ctx, rows, mism, 40 if q else 600)
 
     ctx.log(f"cases: factor={len(fact.terms)} dms={len(dms.terms)} lagrange={len(lag.terms)} laws={len(rows.terms) + len(lin.terms)} "
             f"dop={len(dop.terms)} plate={len(plate.terms)}")
@@ -798,7 +969,7 @@ def run(ctx):
         if cv is not None:
             ctx.count("dms:deg:same-cell-as-model", sum(1 for v in cv if v == 0))
             ctx.count("dms:deg:neighbouring-cell(rounding at a cell boundary)", sum(1 for v in cv if v != 0))
-    for cs, name in ((fact, "units"), (dms, "dms"), (hms, "hms"), (plate, "plate"), (rows, "laws"), (lin, "laws-linear"), (dop, "dop"), (lag, "lagrange")):
+    for cs, name in ((fact, "units"), (same, "units-repeat"), (dms, "dms"), (hms, "hms"), (plate, "plate"), (rows, "laws"), (lin, "laws-linear"), (linm, "linear-model"), (dop, "dop"), (lag, "lagrange")):
         flat = cs.run(ctx)
         ctx.log(f"{name}: {len(cs.terms)} cases evaluated in Coq")
         decide(ctx, cs, flat, name)
